@@ -46,6 +46,10 @@ structure Cfg where
   passes : String → Bool
   /-- the fast path of `unyt_array.__new__` implements `registry=` as `obj.units.registry = registry` -/
   fastAssigns : Bool
+  /-- per conversion entry point: a target unit OBJECT of another registry is not used as the label; the data
+      are labelled with a NEW unit (same spelling) of the data's registry (the candidate repair
+      `fixes/C13-02-…`; `false` for every entry point of the unrepaired library) -/
+  relabels : String → Bool
 
 inductive Target where
   /-- the target was written as a string -/
@@ -95,9 +99,9 @@ def construct (cfg : Cfg) (h : Heap) (u : Nat) (reg : Option Nat) (bypass : Bool
     else lookup h g (h.key u)
 
 /-- array.py `_sanitize_units_convert` -/
-def sanitize (h : Heap) (x : Nat) : Target → Heap × Nat
+def sanitize (cfg : Cfg) (ep : String) (h : Heap) (x : Nat) : Target → Heap × Nat
   | .str s => lookup h (h.home x) s
-  | .obj a => (h, a)
+  | .obj a => if cfg.relabels ep && h.home a != h.home x then alloc h (h.key a) (h.home x) else (h, a)
 
 def step (cfg : Cfg) (h : Heap) : HOp → Heap × Nat
   | .lookup r s => lookup h r s
@@ -105,7 +109,7 @@ def step (cfg : Cfg) (h : Heap) : HOp → Heap × Nat
   | .arith x _ key => alloc h key (h.home x)
   | .construct u reg b => construct cfg h u reg b
   | .convert ep x t =>
-    let r := sanitize h x t
+    let r := sanitize cfg ep h x t
     construct cfg r.1 r.2 (if cfg.passes ep then some (r.1.home x) else none) true
 
 def run (cfg : Cfg) (h : Heap) (ops : List HOp) : Heap := ops.foldl (fun h o => (step cfg h o).1) h
@@ -113,7 +117,7 @@ def run (cfg : Cfg) (h : Heap) (ops : List HOp) : Heap := ops.foldl (fun h o => 
 /-- the operation assigns the `registry` attribute of an object that belongs to another registry -/
 def writes (cfg : Cfg) (h : Heap) : HOp → Bool
   | .construct u (some g) true => cfg.fastAssigns && g != h.home u
-  | .convert ep x (.obj a) => cfg.passes ep && cfg.fastAssigns && h.home x != h.home a
+  | .convert ep x (.obj a) => cfg.passes ep && cfg.fastAssigns && !cfg.relabels ep && h.home x != h.home a
   | _ => false
 
 /-- every address the operation mentions is allocated -/
